@@ -1319,9 +1319,15 @@ impl<'source, 'trivia> GroupBuilder<'source, 'trivia> {
     ) {
         match item.token {
             TriviaToken::EmptyLine => {
-                // Empty lines at the start of a block are dropped,
-                // stripping the block's start would lose its indentation.
-                if !matches!(
+                // Empty lines are kept between the expressions of a block.
+                // - Empty lines at the start of a block are dropped,
+                //   stripping the block's start would lose its indentation.
+                // - Empty lines within an expression are dropped,
+                //   a plain line break would lose the indentation of the continued expression.
+                if matches!(
+                    position_info,
+                    TriviaPosition::LineStart | TriviaPosition::ScriptEnd
+                ) && !matches!(
                     self.items.last(),
                     Some(FormatItem::GroupBreak(GroupBreak::StartBlock))
                 ) {
